@@ -344,7 +344,7 @@ func NearMisses(t *Template, k int) (stmts, decls []string) {
 	case "delete-before-anchor":
 		stmts = append(stmts,
 			fmt.Sprintf("%s()\nother()\nvfKeep%d()", trig, k),
-			fmt.Sprintf("vfKeep%d()\n%s()", k, trig),
+			fmt.Sprintf("{\n%s()\n}\nvfKeep%d()", trig, k),
 			fmt.Sprintf("%s(1)\nvfKeep%d()", trig, k),
 		)
 	case "dots-sandwich":
